@@ -523,6 +523,8 @@ class Engine:
             return v.term != 0
         if isinstance(t, Ty._None):
             return z3.BoolVal(False)
+        if isinstance(t, Ty.Opt):
+            return z3.And(z3.Not(v.c[0]), self.truth(st, V(t.t, v.c[1:])))
         if isinstance(t, Ty.List):
             return v.c[0] > 0
         if isinstance(t, Ty.ODict):
@@ -578,6 +580,10 @@ class Engine:
         if n in self.bound:
             return self.bound[n]
         if n in st.vars:
+            flag = st.vars.get("bound!" + n) if not self.spec_mode else None
+            if flag is not None and not z3.is_true(flag.term):
+                # a local first assigned inside a loop: reading it needs the assignment to have happened
+                self.oblige(st, flag.term, f"local {n} is bound when read at line {self.line(node)}", "safety", node)
             return st.vars[n]
         if self.spec_mode and n in self.contract.lets:
             return self.eval(st, self.parse_expr(self.contract.lets[n]))
@@ -940,6 +946,9 @@ class Engine:
                 return z3.BoolVal(False)
         if isinstance(a, PyConst) and isinstance(b, PyConst):
             return z3.BoolVal(a.val is b.val)
+        if isinstance(a, V) and isinstance(b, V) and isinstance(a.t, Ty._Bool) and isinstance(b.t, Ty._Bool):
+            # True and False are singletons: for values whose declared type is bool, identity is equality
+            return a.term == b.term
         if isinstance(a, PyConst) != isinstance(b, PyConst):
             # a symbolic value / heap object is never a module-level python object
             return z3.BoolVal(False)
@@ -1039,6 +1048,13 @@ class Engine:
             p = z3.Int("in!p")
             return z3.Exists([p], z3.And(0 <= p, p < cv.c[0], cv.c[1][p] == k))
         raise Unsupported(f"containment in {t}")
+
+    def key_not_none(self, st, v, node):
+        """An Optional scalar used as a dict key in the code: obligation 'is not None', then its value."""
+        if isinstance(v, V) and isinstance(v.t, Ty.Opt) and isinstance(v.t.t, Ty._Int) and not self.spec_mode:
+            self.oblige(st, z3.Not(v.c[0]), f"key is not None at line {self.line(node)}", "safety", node)
+            return V(v.t.t, v.c[1:])
+        return v
 
     def keyterm(self, v):
         if isinstance(v, PyConst) and isinstance(v.val, str):
@@ -1198,7 +1214,7 @@ class Engine:
             parts = Ty.split(t, bv.c)
             return parts[i.as_long()]
         if isinstance(t, (Ty.Map, Ty.ODict)):
-            k = self.keyterm(self.deref(st, idx))
+            k = self.keyterm(self.key_not_none(st, self.deref(st, idx), node))
             mp = bv if isinstance(t, Ty.Map) else V(t.map_t, bv.c[len(t.keys_t.sorts()) :])
             if not self.spec_mode:
                 inn = mp.c[0][k]
@@ -1448,6 +1464,8 @@ class Engine:
             for f in Ty.wf(v, f"abs.{n}"):
                 st.assume(f)
             st.vars[n] = self.alloc(st, v) if t.mutable else v
+            if ("bound!" + n) in st.vars:
+                st.vars["bound!" + n] = Ty.mk_bool(True)  # (the abstracted statement assigns the locals it lists)
         self.dropped.append(f"statement at line {self.line(stmt)} abstracted: locals {names} hold arbitrary values afterwards ({ast.unparse(stmt).splitlines()[0][:70]})")
         return [(st, "normal")]
 
@@ -1526,6 +1544,8 @@ class Engine:
             if isinstance(val, V) and val.t.mutable:
                 val = self.alloc(st, val)
             st.vars[tgt.id] = val
+            if ("bound!" + tgt.id) in st.vars:
+                st.vars["bound!" + tgt.id] = Ty.mk_bool(True)
             return
         if isinstance(tgt, (ast.Tuple, ast.List)):
             vv = self.deref(st, val)
@@ -1614,7 +1634,7 @@ class Engine:
             val = self.narrow(st, val, t.e, node)
             return V(t, [bv.c[0]] + [z3.Store(a, i, c) for a, c in zip(bv.c[1:], val.c)])
         if isinstance(t, Ty.Map):
-            k = self.keyterm(idx)
+            k = self.keyterm(self.key_not_none(st, idx, node))
             val = self.narrow(st, val, t.v, node)
             return V(t, [z3.Store(bv.c[0], k, True)] + [z3.Store(a, k, c) for a, c in zip(bv.c[1:], val.c)])
         if isinstance(t, Ty.SDict):
